@@ -15,6 +15,19 @@ def mc_scan(c, wd, tier):
     return r
 
 
+def mc_chunks(c, wd, tier):
+    """Writer / reader symmetry of the container grammar on varint-boundary lengths."""
+    n = 2 if tier == "quick" else 3
+    r = mc("MC_Chunks", wd, constants={"MaxChunks": n, "ZeroSizes": "FALSE"},
+           invariants=["RoundTrip", "VarintRoundTrip"], workers=8, timeout=3000)
+    c.add_model(r, "every list of <= %d chunks with lengths on the varint boundaries: reader inverts writer" % n)
+    cfg = os.path.join(wd, "chunks_neg.cfg")
+    write_cfg(cfg, constants={"MaxChunks": 1, "ZeroSizes": "TRUE"}, invariants=["RoundTrip"])
+    if tlc("MC_Chunks", cfg, os.path.join(wd, "chunks_neg"), coverage=False, timeout=3000)["ok"]:
+        raise ToolError("MC_Chunks does not find the zero-size IDAT descriptor collision in the negative configuration")
+    c.note("negative model (an IDAT descriptor may carry a chunk of size 0) violates RoundTrip as expected")
+
+
 def gen_files(wd, tier, seed):
     out = os.path.join(wd, "files.ndjson")
     # spec -> impl: every abstract file of <= 3 segments (14 142 files); 4-segment files only in the model
